@@ -93,7 +93,8 @@ def attr_state(o):
 def elem_state(o):
     if isinstance(o, np.ndarray):
         return [[], [], []]
-    return [[[int(a) for a in e] for e in getattr(o, cn)] if hasattr(o, cn) else [] for cn in ("edges", "faces", "cells")]
+    return [[(sorted(int(a) for a in e) if cn == "edges" else [int(a) for a in e]) for e in getattr(o, cn)]
+            if hasattr(o, cn) else [] for cn in ("edges", "faces", "cells")]
 
 
 def proc(name, p):
@@ -126,7 +127,8 @@ def proc(name, p):
     if name == "pointcloud":
         pc = M.mesh.PointCloud()
         for x in p[0]:
-            pc.vertices.append(V3(x))      # container semantics: the cloud stores the very vector it is given
+            # container semantics: the cloud stores the very vector (and number type) the caller hands it: floats here
+            pc.vertices.append(M.Vec(float(x[0]), float(x[1]), float(x[2])))
         del PARAMS[:]
         return pc
     raise ValueError("unknown producer " + name)
@@ -197,7 +199,7 @@ def combi(o, extra=None):
             d[key] = [[int(a) for a in c._elem], [int(a) for a in c._adj]]
     d["nv"] = len(slots(o))
     if k >= 1:
-        d["edges"] = [[int(a) for a in e] for e in o.edges]
+        d["edges"] = [sorted(int(a) for a in e) for e in o.edges]      # an edge is an unordered pair
     if k >= 2:
         d["faces"] = [[int(a) for a in f] for f in o.faces]
     if k >= 3:
@@ -352,7 +354,8 @@ def run_case(case, scratch):
                 else:
                     o.vertices[op[2]][op[3]] = num(op[4])
             elif name == "set":
-                objs[op[1]].vertices[op[2]] = V3(op[3])
+                # the caller's own vector goes into the container as it is: floats (an int64 vector would stay one)
+                objs[op[1]].vertices[op[2]] = M.Vec(float(op[3][0]), float(op[3][1]), float(op[3][2]))
             else:
                 raise ValueError("unknown op " + name)
             if new is not None:
